@@ -263,6 +263,9 @@ func (v *Validator) GetDelegationFrom(d common.Address) *DelegationFrom {
 }
 
 func (v *Validator) UpdateDelegationFrom(d *DelegationFrom) (flag params.CurdFlag) {
+	// PartialCopy shares the Delegations backing array with the object it was copied
+	// from (which the journal keeps for reverting): never edit it in place.
+	v.Delegations = append(make(DelegationFroms, 0, len(v.Delegations)+1), v.Delegations...)
 	empty := d.Empty()
 	i := v.Delegations.Search(d.Delegator)
 	oldLen := v.Delegations.Len()
